@@ -331,6 +331,15 @@ class Ctx:
         return out
 
     def run_lean(self, suite, lines, timeout=600):
+        # the model is a pure function of each line: large inputs are split over several driver processes
+        if len(lines) > 4000:
+            from concurrent.futures import ThreadPoolExecutor
+            k = min(12, (len(lines) + 3999) // 4000)
+            size = (len(lines) + k - 1) // k
+            chunks = [lines[i:i + size] for i in range(0, len(lines), size)]
+            with ThreadPoolExecutor(max_workers=k) as ex:
+                parts = list(ex.map(lambda c: self.run_lean(suite, c, timeout=timeout), chunks))
+            return [x for p in parts for x in p]
         data = ('\n'.join(lines) + '\n').encode()
         p = subprocess.run([self.driver_path, suite], input=data, stdout=subprocess.PIPE,
                            stderr=subprocess.PIPE, timeout=timeout)
